@@ -26,6 +26,7 @@ def run(tier: str) -> int:
             {"Family": "stack1", "MaxLen": 3, "Starts": "zero", "Sample": 0, "workers": 3, "style": "both"},
             {"Family": "stackdeep", "MaxLen": 3, "Starts": "zero", "Sample": 1200, "workers": 3},
             {"Family": "tags", "MaxLen": 3, "Starts": "zero", "Sample": 150, "workers": 2},
+            {"Family": "optsk", "MaxLen": 3, "Starts": "all", "Sample": 150, "workers": 3, "style": "min"},
         ]
     else:
         fams = [
